@@ -27,8 +27,9 @@ const day = 24 * time.Hour
 type c01Model struct {
 	Blocks int
 	Gas    uint64
-	Start  int64           // start height of the posted file
-	Proven map[string]bool // account -> has ever had a valid-by-construction proof accepted (or a completed attestation)
+	Start  int64               // start height of the posted file
+	Proven map[string]bool     // account -> has ever had a valid-by-construction proof accepted (or a completed attestation)
+	Signed map[string][]string // prover with an open attestation form -> distinct named providers that signed it
 }
 
 func (m c01Model) Key() []byte { return jkey(m) }
@@ -38,6 +39,10 @@ func (m c01Model) clone() c01Model {
 	for k, v := range m.Proven {
 		n.Proven[k] = v
 	}
+	n.Signed = map[string][]string{}
+	for k, v := range m.Signed {
+		n.Signed[k] = append([]string{}, v...)
+	}
 	return n
 }
 
@@ -45,10 +50,10 @@ func (C01) ID() string   { return "C01" }
 func (C01) Name() string { return "C01/proofs" }
 func (C01) Config() world.Config {
 	return world.Config{
-		Accounts: []string{"U", "P1", "P2", "P3"},
+		Accounts: []string{"U", "P1", "P2", "P3", "P4"},
 		Storage: func(p *storagetypes.Params) {
 			p.ChunkSize, p.ProofWindow, p.CheckWindow = 4, 3, 2
-			p.AttestFormSize, p.AttestMinToPass = 1, 1
+			p.AttestFormSize, p.AttestMinToPass = 2, 2
 			p.CollateralPrice = 1000
 		},
 	}
@@ -69,8 +74,8 @@ func (C01) Init(env world.Env) mc.Model {
 	u := w.A("U").Bech
 	mustOK(env.Deliver(storagetypes.NewMsgBuyStorage(u, u, 30, 1000_000_000_000, "ujkl")), "BuyStorage")
 	start := env.Ctx().BlockHeight()
-	mustOK(env.Deliver(storagetypes.NewMsgPostFile(u, c01F1.merkle, int64(len(c01F1.data)), 0, 0, 2, "{}")), "PostFile")
-	return c01Model{Start: start, Proven: map[string]bool{}}
+	mustOK(env.Deliver(storagetypes.NewMsgPostFile(u, c01F1.merkle, int64(len(c01F1.data)), 0, 0, 3, "{}")), "PostFile")
+	return c01Model{Start: start, Proven: map[string]bool{}, Signed: map[string][]string{}}
 }
 
 var c01Kinds = []string{"valid", "otherAtChallenged", "otherOwnIndex", "broken"}
@@ -87,6 +92,8 @@ func (C01) Events(env world.Env, mm mc.Model) []string {
 	for _, k := range c01ExtraKinds {
 		evs = append(evs, "Proof:P3:f1:"+k)
 	}
+	// a fourth account, not a registered provider: only it can meet the file when it is full (replication 3)
+	evs = append(evs, "Proof:P4:f1:valid", "Proof:P4:f1:otherAtChallenged", "Proof:P4:f1:broken")
 	evs = append(evs, "Proof:P3:f0:valid", "AttReq:P1", "AttReq:P3")
 	for _, x := range c01Provers {
 		for _, v := range []string{"P1", "P3"} {
@@ -176,7 +183,7 @@ func (C01) Apply(env world.Env, mm mc.Model, ev string) mc.Step {
 		m.Gas = 0
 		st.Outcome = "block"
 		after := w.Balances(env.Ctx())
-		for _, x := range c01Provers {
+		for _, x := range append(append([]string{}, c01Provers...), "P4") {
 			a := w.A(x).Bech
 			if after[a].AmountOf("ujkl").GT(before[a].AmountOf("ujkl")) {
 				st.Exercised = append(st.Exercised, "reward-paid")
@@ -236,7 +243,7 @@ func (C01) Apply(env world.Env, mm mc.Model, ev string) mc.Step {
 			}
 		}
 		// (b) prover list gains an account only by its own valid proof; (c) LastProven moves only then
-		for _, y := range c01Provers {
+		for _, y := range append(append([]string{}, c01Provers...), "P4") {
 			yb := w.A(y).Bech
 			was := before.found && proverListed(before.file, yb)
 			is := after.found && proverListed(after.file, yb)
@@ -263,6 +270,7 @@ func (C01) Apply(env world.Env, mm mc.Model, ev string) mc.Step {
 			var r storagetypes.MsgRequestAttestationFormResponse
 			if err := w.Cdc().Unmarshal(res.RespData, &r); err == nil && r.Success {
 				st.Outcome = "ok"
+				delete(m.Signed, p[1])
 			}
 		}
 	case "Attest":
@@ -277,7 +285,11 @@ func (C01) Apply(env world.Env, mm mc.Model, ev string) mc.Step {
 		}
 		res := env.Deliver(storagetypes.NewMsgAttest(x.Bech, v.Bech, c01F1.merkle, u, m.Start))
 		after := c01Snapshot(w, env.Ctx(), m.Start)
-		quorum := hadForm && named // form size 1, minimum 1
+		// reference: distinct named signers of this form; the quorum is 2 of the 2 named providers
+		if hadForm && named && !has(m.Signed[p[2]], p[1]) {
+			m.Signed[p[2]] = append(m.Signed[p[2]], p[1])
+		}
+		quorum := hadForm && len(m.Signed[p[2]]) >= 2
 		for _, y := range c01Provers {
 			yb := w.A(y).Bech
 			pb, hadb := before.proofs[yb]
@@ -289,6 +301,7 @@ func (C01) Apply(env world.Env, mm mc.Model, ev string) mc.Step {
 					m.Proven[y] = true
 					st.Outcome = "ok"
 					st.Exercised = append(st.Exercised, "attestation-completed")
+					delete(m.Signed, y)
 				}
 			}
 		}
@@ -301,8 +314,8 @@ func (C01) Apply(env world.Env, mm mc.Model, ev string) mc.Step {
 func init() {
 	regScenario(C01{})
 	Props["C01"] = Prop{Level: "model_checking", Run: func(r *mc.Run, tier string) {
-		r.Rules = append(r.Rules, "BFS from a posted 3-chunk file (replication 2) over PostProof by 3 accounts x payload {valid for the challenged chunk, another chunk's proof sent with the challenged index, with its own index, broken hash list; for one account also foreign-file proof, empty item, truncated hash list}, proof for an unknown file, attestation request/sign, block-gas choice (varies the next challenge), NextBlock (1 day; reward blocks every 2nd block); payload validity is known by construction and cross-checked with the Merkle library")
+		r.Rules = append(r.Rules, "BFS from a posted 3-chunk file (replication 3; a 4th account meets it when full) over PostProof by 3 accounts x payload {valid for the challenged chunk, another chunk's proof sent with the challenged index, with its own index, broken hash list; for one account also foreign-file proof, empty item, truncated hash list}, proof for an unknown file, attestation request/sign, block-gas choice (varies the next challenge), NextBlock (1 day; reward blocks every 2nd block); payload validity is known by construction and cross-checked with the Merkle library")
 		r.Assumptions = append(r.Assumptions, "ChunkSize 4, ProofWindow 3, CheckWindow 2, attestation form size 1/min 1", "SHA-256/SHA3 collision freedom")
-		r.AddExplore(C01{}, opts(tier, 9, 14, 60, 1200, 150, 2000))
+		r.AddExplore(C01{}, opts(tier, 7, 12, 60, 1200, 150, 2000))
 	}}
 }
